@@ -110,7 +110,8 @@ for _p in ("C01", "C02", "C03", "C05", "C06", "C07", "C08", "C09", "C10", "C11",
     PLANS[_p]["thorough"].append({"cfg": "dbg-big", "prof": _p, "runs": 5_000_000})
 PLANS["C04"]["quick"].append({"cfg": "dbg", "prof": "C04io", "mode": "garbage", "runs": 100_000})
 PLANS["C04"]["quick"].append({"cfg": "dbg", "prof": "C04f", "runs": 200_000})
-PLANS["C04"]["thorough"] += [{"cfg": c, "prof": "C04f", "runs": 8_000_000} for c in ("dbg", "rel")]
+PLANS["C04"]["quick"].append({"cfg": "dbg", "prof": "C04d", "runs": 200_000})
+PLANS["C04"]["thorough"] += [{"cfg": c, "prof": p, "runs": 8_000_000} for c in ("dbg", "rel") for p in ("C04f", "C04d")]
 PLANS["C04"]["thorough"] += [
     {"cfg": "dbg", "prof": "C04io", "mode": "garbage", "runs": 4_000_000},
     {"kind": "miri", "prof": "C04", "procs": 16, "runs_per_proc": 100},
